@@ -176,6 +176,25 @@ impl MemFs {
         fs
     }
 
+    /// Like `from_journal` but files are never removed: `Remove` entries of the prefix are ignored
+    /// (a `Create` of an existing path still replaces it). Used as a differential oracle: if a crash
+    /// image only recovers correctly when removed files are put back, a needed file was deleted.
+    pub fn from_journal_keep_removed(j: &[JOp], k: usize) -> MemFs {
+        let fs = MemFs::new(false);
+        {
+            let mut s = fs.st.lock().unwrap();
+            for op in &j[..k.min(j.len())] {
+                if let JOp::Remove { path } = op {
+                    if path.contains("/wal/") || path.contains("/data/") {
+                        continue;
+                    }
+                }
+                MemFs::apply(&mut s, op, None);
+            }
+        }
+        fs
+    }
+
     /// Deep copy of the current image (names and contents); journal and tracking are not copied.
     pub fn clone_image(&self, record: bool) -> MemFs {
         let fs = MemFs::new(false);
